@@ -52,7 +52,7 @@ theorem upMask_noRec (nas : Nas) (sedn : Nat) (usetdn : List Row) (dnids : List 
   · refine bind_noRec (lookupD_noRec _ _) ?_
     intro upids _
     split
-    · simp [IsRec]
+    · split <;> simp [IsRec]
     · split <;> simp [IsRec]
   · simp [IsRec]
 
